@@ -14,6 +14,7 @@ COMMON_ASSUMPTIONS = [
 ]
 
 PROPS = {
+    "C01": {}, "C02": {}, "C03": {}, "C04": {}, "C05": {}, "C06": {}, "C19": {}, "C20": {},
     "C07": {
         "bounds": "one API call from an arbitrary register file satisfying the invariant (17 64-bit keys present): "
                   "all 86 register ids x all 2^64 prior contents of all 17 registers x all 2^64 written values x "
@@ -57,6 +58,12 @@ PROPS = {
 }
 
 
-def generate(prop, tier, seed):
-    """Generated harness files {filename: text} needed for `prop`."""
-    return {}
+INSN_PROPS = {"C01", "C02", "C03", "C04", "C05", "C06", "C08", "C09", "C19", "C20"}
+
+
+def generate(sc, prop, tier, seed):
+    """Generated harness files needed for `prop`: ({filename: text}, meta)."""
+    if prop in INSN_PROPS:
+        import gen_insn
+        return gen_insn.generate(sc, tier, seed)
+    return {}, {}
